@@ -63,6 +63,7 @@ fn main() {
         .unwrap_or(8000);
     let pid = std::process::id();
     let path = format!("{}/c01-{}-{}.pdf", tmpdir, prof, pid);
+    let retries = std::sync::atomic::AtomicU32::new(0);
     run_lines(move |t| {
         let data = unhex(t[1]);
         if t[0] == "M" && t.len() >= 4 {
@@ -74,31 +75,42 @@ fn main() {
             let mut f = std::fs::File::create(&path).unwrap();
             f.write_all(&data).unwrap();
         }
-        let mut child = match Command::new(&bin)
-            .arg(&path)
-            .stdin(Stdio::null())
-            .stdout(Stdio::null())
-            .stderr(Stdio::null())
-            .spawn()
-        {
-            Ok(c) => c,
-            Err(_) => return "nobinary".to_string(),
-        };
-        let t0 = Instant::now();
-        let status = loop {
-            match child.try_wait() {
-                Ok(Some(st)) => break Some(st),
-                Ok(None) => {
-                    if t0.elapsed() > Duration::from_millis(limit) {
-                        let _ = child.kill();
-                        let _ = child.wait();
-                        break None
-                    }
-                    std::thread::sleep(Duration::from_millis(if t0.elapsed().as_millis() < 50 { 1 } else { 10 }));
-                },
-                Err(_) => break None,
+        // run once under the watchdog; a timeout is confirmed by a second, much longer run (at most a few
+        // times per runner process), so that a heavily loaded machine cannot turn a slow run into a "hang"
+        let run_once = |limit_ms: u64| -> Result<Option<std::process::ExitStatus>, ()> {
+            let mut child = match Command::new(&bin)
+                .arg(&path)
+                .stdin(Stdio::null())
+                .stdout(Stdio::null())
+                .stderr(Stdio::null())
+                .spawn()
+            {
+                Ok(c) => c,
+                Err(_) => return Err(()),
+            };
+            let t0 = Instant::now();
+            loop {
+                match child.try_wait() {
+                    Ok(Some(st)) => return Ok(Some(st)),
+                    Ok(None) => {
+                        if t0.elapsed() > Duration::from_millis(limit_ms) {
+                            let _ = child.kill();
+                            let _ = child.wait();
+                            return Ok(None)
+                        }
+                        std::thread::sleep(Duration::from_millis(if t0.elapsed().as_millis() < 50 { 1 } else { 10 }));
+                    },
+                    Err(_) => return Ok(None),
+                }
             }
         };
+        let mut status = match run_once(limit) {
+            Ok(s) => s,
+            Err(_) => return "nobinary".to_string(),
+        };
+        if status.is_none() && retries.fetch_add(1, std::sync::atomic::Ordering::SeqCst) < 4 {
+            status = run_once(5 * limit).unwrap_or(None);
+        }
         let _ = std::fs::remove_file(&path);
         match status {
             None => "timeout".to_string(),
